@@ -25,6 +25,8 @@ for p in patches:
     msg = open(msgf).read().strip() if os.path.exists(msgf) else "fix: " + slug
     if not msg.startswith("fix:"):
         msg = "fix: " + msg
+    if sh("git", "-C", REPO, "apply", "--check", "--reverse", p).returncode == 0:
+        continue    # already applied
     r = sh("git", "-C", REPO, "apply", "--check", p)
     if r.returncode != 0:
         r3 = sh("git", "-C", REPO, "apply", "--check", "--3way", p)
